@@ -60,6 +60,17 @@ Print Assumptions c13_ipvlan_one_default_route_partial.
 
 (* non-vacuity: pod in slot 1 with address 11 on interface 1 loses its sandbox without a DEL (its rules stay behind);
    the address is handed to slot 2 on interface 2: the stale from-rule is replaced, not shadowing the new one *)
+(* the exclusive-interface and the vlan container configurations (own_cont_cfg, compared field by field with
+   generateContCfgForExclusiveENI / generateContCfgForVlan on every generated configuration): exactly one default route per
+   enabled family in the main table when one is asked for, none otherwise *)
+Theorem c13_own_interface_one_default_route_partial : forall vlan g li f, 0 <= li -> (f = 4 \/ f = 6) ->
+  length (filter (is_def f) (own_routes vlan g li ++ map (extra_route li) (g_extra g))) =
+  if (if f =? 4 then g_on4 g else g_on6 g) && g_def g then 1%nat else 0%nat.
+Proof.
+  intros vlan g li f Hli Hf. rewrite filter_app, extra_not_default, app_nil_r. exact (own_one_default vlan g li f Hli Hf).
+Qed.
+Print Assumptions c13_own_interface_one_default_route_partial.
+
 Example c13_ex :
   let h := setup 2 11 2 1 (drop_veth 1 (setup 1 11 1 1 init_h)) in
   look_to h 4 11 = 102 /\ look_from h 4 11 = (202, gw_of 2) /\
